@@ -129,6 +129,9 @@ class Shard:
         self.cases = cases
 
 
+SHARD_CAP = 3000
+
+
 class Workspace:
     """A generated cargo workspace of client shards depending on /repo."""
 
@@ -169,6 +172,9 @@ class Workspace:
             shutil.rmtree(self.root)
         self.root.mkdir(parents=True)
         n = self.nshards or max(1, min(NCPU, (len(self.cases) + 7) // 8))
+        if not self.nshards and len(self.cases) > n * SHARD_CAP:
+            # rustc's memory grows with the shard; 16 shards of 15k modules each exhausted the 62 GB of this machine
+            n = (len(self.cases) + SHARD_CAP - 1) // SHARD_CAP
         buckets = [[] for _ in range(n)]
         for i, c in enumerate(self.cases):
             buckets[i % n].append(c)
